@@ -39,6 +39,31 @@ pub fn make_case(seed: u64, k: u64, alphabet: &[String]) -> Case {
     let pts = 5 + r.below(60);
     let d = 1 + r.below(5);
     let prog = gen::program(&mut r, pts, d, if k % 3 == 0 { Vals::Mixed } else { Vals::Small }, alphabet);
+    // one case in six: COMPOSITE names - an identifier that is not bound itself but is made of bound names
+    // joined by a blank / dot / dash / nothing (what NAME.CAT builds), as an item of the program and built
+    // at run time. Whatever the interpreter does with the parts, it must not do it in the iteration order of
+    // the binding table (a std HashMap: the order differs from instance to instance).
+    let mut prog = prog;
+    if r.chance(1, 6) {
+        let parts = ["ca", "cb", "cc", "cd", "ce"];
+        let nparts = 2 + r.below(4);
+        for (j, p) in parts.iter().take(nparts).enumerate() {
+            let def = match r.below(3) {
+                0 => SItem::Int(1000 + j as i32),
+                1 => SItem::List(vec![SItem::Int(j as i32), SItem::Instr("INTEGER.DUP".to_string())]),
+                _ => SItem::Float(fb(j as f32 + 0.5)),
+            };
+            s.nb.insert(p.to_string(), def);
+        }
+        let sep = *r.pick(&[" ", " ", " ", ".", "-", "", "  "]);
+        let composite = parts[..nparts].join(sep);
+        let mut v = vec![SItem::Name(composite), SItem::Name(format!("{} {}", parts[1], parts[0]))];
+        // the same built at run time
+        v.extend([SItem::Instr("NAME.QUOTE".to_string()), SItem::Name(parts[0].to_string()), SItem::Instr("NAME.QUOTE".to_string()), SItem::Name(parts[1].to_string()), SItem::Instr("NAME.CAT".to_string()), SItem::Instr("CODE.FROMNAME".to_string()), SItem::Instr("CODE.DO".to_string())]);
+        v.push(prog);
+        prog = SItem::List(v);
+        s.q = false;
+    }
     // keep size operands inside the envelope: determinism, not resources, is the subject
     s.e = vec![prog];
     s.cfg.eval_push_limit = 300;
